@@ -5,6 +5,7 @@
 import HL.Lemmas.SemTok
 import HL.Lemmas.SemTokGeom
 import HL.Lemmas.SemTokWitness
+import HL.Model.SemTokPinned
 import Std.Data.String.ToNat
 namespace HL.Props.C17
 open HL HL.SemTok HL.SemTokSpec HL.Lemmas.SemTok
@@ -26,9 +27,9 @@ theorem encode_decode_unordered_counterexample :
       = [⟨0, 5, 1, 0, 0⟩, ⟨0, 4294967299, 1, 0, 0⟩] := by decide
 
 /-- Non-vacuity: the real tokens of a two-line journal are in document order. -/
-example : weaklyOrdered ((tokenize Classes.ascii W.cleanToks).map absOf) = true ∧
-    decode (encodeTokens (tokenize Classes.ascii W.cleanToks))
-      = (tokenize Classes.ascii W.cleanToks).map absOf := by decide +kernel
+example : weaklyOrdered ((tokenize Classes.ascii W.cleanText W.cleanToks).map absOf) = true ∧
+    decode (encodeTokens (tokenize Classes.ascii W.cleanText W.cleanToks))
+      = (tokenize Classes.ascii W.cleanText W.cleanToks).map absOf := by decide +kernel
 
 /-! ## 2. Range requests -/
 
@@ -51,7 +52,7 @@ theorem range_is_restriction (ts : List SemToken) (lo hi : UInt32)
   congr 1
 
 /-- Non-vacuity: line 1 of the two-line journal — 6 of its 13 tokens. -/
-example : (decode (encodeTokens (filterByRange 1 1 (tokenize Classes.ascii W.cleanToks)))).length = 6 := by
+example : (decode (encodeTokens (filterByRange 1 1 (tokenize Classes.ascii W.cleanText W.cleanToks)))).length = 6 := by
   decide +kernel
 
 /-! ## 3. Edits -/
@@ -168,141 +169,213 @@ example : (run cfgB ({}, {}) staleHistory).2.shown "u" = some [0, 0, 1, 0, 0] :=
 
 /-! ## 5. The tokens themselves
 
-  Input: the lexer's token list (the lexer is not part of this model).  `tokenize cls toks` is
-  `tokenizeForSemantics`; `cls` = `unicode.IsLetter` / `IsDigit`, any. -/
+  Input: the document text and the lexer's token list for it (the lexer is not part of this
+  model).  `tokenize cls text toks` is `tokenizeForSemantics`; `cls` = `unicode.IsLetter` /
+  `IsDigit`, any.  Positions and lengths are taken from the SOURCE EXTENT of each lexer token
+  (`Pos.Offset`, `End.Offset` and the text between them), columns from the UTF-16 cursor over the
+  text; the lexer's rune columns and (except for comments) token values play no role. -/
 
 /-- **legend_ok.**  Every token has a type from the advertised legend (13 types) and only
-    advertised modifier bits (2 modifiers) — for every lexer output whatsoever. -/
-theorem legend_ok (cls : Classes) (toks : List Token) :
-    ∀ s ∈ tokenize cls toks, legendOk legendTypes.length legendMods.length (absOf s) = true := by
+    advertised modifier bits (2 modifiers) — for every text and every lexer output whatsoever. -/
+theorem legend_ok (cls : Classes) (text : Bytes) (toks : List Token) :
+    ∀ s ∈ tokenize cls text toks, legendOk legendTypes.length legendMods.length (absOf s) = true := by
   intro s hs
-  have := tokGo_legend cls {} toks s hs
+  have := tokGo_legend cls text {} toks s hs
   have h13 : legendTypes.length = 13 := rfl
   have h2 : legendMods.length = 2 := rfl
   simp only [legendOk, absOf, h13, h2, Bool.and_eq_true, decide_eq_true_eq]
   exact ⟨this.1, this.2⟩
 
-/-- **ordered_disjoint_inline (partial).**  If the lexer's tokens are laid out left to right
-    with room for the cells each one claims (`spacedB`: bounds, and every mapped token starts
-    after `column + claimWidth` of the mapped token before it) and those cells lie inside the line (`inlineB`),
+/-- **ordered_disjoint_inline (partial).**  If the lexer's source extents are well-formed and
+    laid out in document order without overlap — in BYTES: `extentsB` — and the UTF-16 cursor
+    agrees with the UTF-16 lengths of the pieces of text that become tokens (`measB`; a fact
+    about rune boundaries), and every piece ends inside its line (`inlineB`: false only for a
+    comment that swallows the CR of a CRLF line end, the open finding crlf-comment-length),
     then the semantic tokens are in document order, do not overlap, and stay inside their
-    lines — including the tag tokens cut out of comments.  The hypotheses hold for the real
-    lexer's output outside the known deviations (evaluated by the driver on every case). -/
-theorem ordered_disjoint_inline_partial (cls : Classes) (toks : List Token) (lens : List Nat)
-    (hs : spacedB cls toks = true) (hi : inlineB lens cls toks = true) :
-    orderedDisjoint ((tokenize cls toks).map absOf) = true ∧
-    ∀ a ∈ (tokenize cls toks).map absOf, inLine lens a = true :=
-  have hs' : (mappedBody toks).all (tokBounds cls) = true ∧ chainB cls (mappedBody toks) = true := by
-    simpa [spacedB] using hs
-  ⟨(tokGo_ordered cls {} toks 0 0 hs'.1 hs'.2 (by
+    lines — including the tag tokens cut out of comments.  No hypothesis mentions codes,
+    quoted commodities, trimmed text, characters outside the BMP or non-ASCII comment text any
+    more: those defects are repaired. -/
+theorem ordered_disjoint_inline_partial (cls : Classes) (text : Bytes) (toks : List Token)
+    (lens : List Nat)
+    (hx : extentsB text toks = true) (hm : measB cls text toks = true)
+    (hi : inlineB lens cls text toks = true) :
+    orderedDisjoint ((tokenize cls text toks).map absOf) = true ∧
+    ∀ a ∈ (tokenize cls text toks).map absOf, inLine lens a = true :=
+  have hx' : (mappedBody toks).all (extentOk text) = true ∧ chainB text (mappedBody toks) = true := by
+    simpa [extentsB] using hx
+  ⟨(tokGo_ordered cls text {} toks 0 0 hx'.1 hx'.2 (measAll_of cls text toks hm) (by
       cases mappedBody toks with
       | nil => trivial
       | cons t r => simp only [Bound]; omega)).1,
-   tokGo_inline cls lens {} toks hs'.1 hi⟩
+   tokGo_inline cls text lens {} toks hx'.1 (measAll_of cls text toks hm) hi⟩
 
 /-- **covers_lexeme (partial).**  A token that is not cut out of a comment covers exactly the
-    lexeme of the lexer token it was made from (same line, same first and last UTF-16 unit,
-    a type of that kind), provided the lexer's position and value are `faithful` to the text —
-    which is false precisely for the deviations `devPipe`, `devCode`, `devQuoted`,
-    `devTextTrim`, `devCrComment`, `devNonBmpBefore`. -/
+    lexeme of the lexer token it was made from (same line, same first and last UTF-16 unit, a
+    type of that kind, not empty), provided the lexer token's extent is well-formed
+    (`extentOk`), the lexer's line number and the cursor's column are the LSP position of the
+    lexeme's first byte (`placed`), and the token is not a comment whose value ends with the CR
+    of a CRLF line end (`devCrComment`, the one open finding).  (`hplain` is a case
+    distinction, not a guard: the tokens cut out of a comment are the subject of
+    `tag_tokens_placed`.) -/
 theorem covers_lexeme_partial (cls : Classes) (text : Bytes) (toks : List Token)
-    (s : SemToken) (t : Token) (h : (s, t) ∈ tokenizeSrc cls toks)
-    (hplain : t.ty = .comment → (extractTags cls t).isEmpty = true)
-    (hf : faithful text t = true)
-    (hb : 1 ≤ t.pos.line ∧ t.pos.line < 2 ^ 32 ∧ 1 ≤ t.pos.col ∧ t.pos.col + u16lenB t.val + 1 < 2 ^ 32) :
+    (s : SemToken) (t : Token) (h : (s, t) ∈ tokenizeSrc cls text toks)
+    (hplain : t.ty = .comment → (extractTags cls text t).isEmpty = true)
+    (hx : extentOk text t = true) (hp : placed text t = true) (hcr : devCrComment t = false) :
     coversTok text t (absOf s) = true := by
-  obtain ⟨c', hmem, _, _⟩ := tokGoSrc_mem cls {} toks s t h
-  rcases stepTok_mem cls c' t s hmem with ⟨hc, _, hne⟩ | ⟨semType, mods, hty, _, rfl, _⟩
+  obtain ⟨c', hmem, _, _⟩ := tokGoSrc_mem cls text {} toks s t h
+  rcases stepTok_mem cls text c' t s hmem with ⟨hc, _, hne⟩ | ⟨semType, mods, hty, _, rfl, hnz, _⟩
   · rw [hplain hc] at hne; cases hne
-  · exact plain_covers text t semType mods hty hf hb
+  · exact plain_covers text t semType mods hty (extentP_of text t hx) hp hcr hnz
+
+/-- **Tags.**  A token cut out of a comment sits on the comment's line at the cursor's column
+    of the first byte of a span of the comment text and has the span's UTF-16 length, where the
+    span is exactly `name:` for a name accepted by `isValidTagName` (type `tag`, length = UTF-16
+    length of the name + 1) or a non-empty tag value (type `tagValue`, length = UTF-16 length
+    of the value). -/
+theorem tag_tokens_placed (cls : Classes) (text : Bytes) (toks : List Token)
+    (s : SemToken) (t : Token) (h : (s, t) ∈ tokenizeSrc cls text toks)
+    (htag : t.ty = .comment ∧ (extractTags cls text t).isEmpty = false)
+    (hx : extentOk text t = true) :
+    ∃ sp ∈ extractSpans cls t.val, SpanContent cls t.val sp ∧
+      absOf s = ⟨t.pos.line - 1, colAt text (t.pos.off + 1 + sp.off), sp.len16, sp.ty.toNat, 0⟩ := by
+  obtain ⟨c', hmem, _, _⟩ := tokGoSrc_mem cls text {} toks s t h
+  have he := extentP_of text t hx
+  rcases stepTok_mem cls text c' t s hmem with ⟨_, hs, _⟩ | ⟨_, _, _, _, _, _, hpl⟩
+  · simp only [extractTags, List.mem_map] at hs
+    obtain ⟨sp, hsp, rfl⟩ := hs
+    refine ⟨sp, hsp, extractSpans_content cls t.val sp hsp, ?_⟩
+    have hc := extractSpans_content cls t.val sp hsp
+    obtain ⟨hi, hhi, hs, _⟩ := extractSpans_spec cls t.val
+    have h16 : sp.len16 < 2 ^ 32 := by
+      have hlen := he.cmtLen htag.1
+      have hsm := he.small
+      have hit := he.inText
+      rcases hc with ⟨_, name, _, hl, hl16, _⟩ | ⟨_, value, _, hl, hl16, _⟩
+      · have := u16lenB_le name
+        have hb := spansFrom_mem_le hs sp hsp
+        omega
+      · have := u16lenB_le value
+        have hb := spansFrom_mem_le hs sp hsp
+        omega
+    exact absOf_tagToken text t sp he h16
+  · rw [hpl htag.1] at htag; cases htag.2
 
 /-- The provenance list is the token list. -/
-theorem tokenizeSrc_fst (cls : Classes) (toks : List Token) :
-    (tokenizeSrc cls toks).map (·.1) = tokenize cls toks := tokGoSrc_fst cls {} toks
+theorem tokenizeSrc_fst (cls : Classes) (text : Bytes) (toks : List Token) :
+    (tokenizeSrc cls text toks).map (·.1) = tokenize cls text toks := tokGoSrc_fst cls text {} toks
 
 /-- Consequently the client decodes exactly the server's tokens (the guard of `encode_decode`
-    holds for every lexer output that is `spacedB`). -/
-theorem encode_decode_tokenize_partial (cls : Classes) (toks : List Token)
-    (hs : spacedB cls toks = true) :
-    decode (encodeTokens (tokenize cls toks)) = (tokenize cls toks).map absOf := by
-  have hs' : (mappedBody toks).all (tokBounds cls) = true ∧ chainB cls (mappedBody toks) = true := by
-    simpa [spacedB] using hs
-  have ho := (tokGo_ordered cls {} toks 0 0 hs'.1 hs'.2 (by
+    holds for every lexer output with well-formed extents and coherent UTF-16 measures). -/
+theorem encode_decode_tokenize_partial (cls : Classes) (text : Bytes) (toks : List Token)
+    (hx : extentsB text toks = true) (hm : measB cls text toks = true) :
+    decode (encodeTokens (tokenize cls text toks)) = (tokenize cls text toks).map absOf := by
+  have hx' : (mappedBody toks).all (extentOk text) = true ∧ chainB text (mappedBody toks) = true := by
+    simpa [extentsB] using hx
+  have ho := (tokGo_ordered cls text {} toks 0 0 hx'.1 hx'.2 (measAll_of cls text toks hm) (by
       cases mappedBody toks with
       | nil => trivial
       | cons t r => simp only [Bound]; omega)).1
   exact encode_decode _ (orderedDisjoint_weakly _ ho)
 
-/-- **Tags.**  Whatever the comment: every tag token is cut out exactly around `name:` for a
-    name accepted by `isValidTagName`, every tag value token around a non-empty string (byte
-    spans of the comment's value; where they land in the document is the business of the
-    deviations `devTagBytes`, `devTagSkippedPart`, `devNonBmpBefore`), and the spans are in
-    increasing order, disjoint and inside the comment. -/
+/-- **Tag spans.**  Whatever the comment: every tag span is cut out exactly around `name:` for
+    a name accepted by `isValidTagName`, every tag value span around a non-empty string, and the
+    spans are in increasing order, disjoint and inside the comment. -/
 theorem tag_spans_wellformed (cls : Classes) (comment : Bytes) :
     (∀ sp ∈ extractSpans cls comment, SpanContent cls comment sp) ∧
     ∃ hi, hi ≤ comment.length ∧ SpansFrom 0 (extractSpans cls comment) hi :=
   ⟨extractSpans_content cls comment,
    let ⟨hi, h1, h2, _⟩ := extractSpans_spec cls comment; ⟨hi, h1, h2⟩⟩
 
-/-! ### Non-vacuity: a real lexer output that satisfies all hypotheses
-    (`2024-01-15 * payee ; k:v, n: w` / `    a:b  $1 @ 2 EUR`, 13 tokens, 4 of them tags). -/
+/-! ### Non-vacuity: real lexer outputs that satisfy all hypotheses — the clean two-line journal
+    (`2024-01-15 * payee ; k:v, n: w` / `    a:b  $1 @ 2 EUR`, 13 tokens, 4 of them tags) and
+    the witnesses of the repaired findings (a code, a quoted commodity, a payee after a
+    no-break space, a character outside the BMP before an amount, tags after non-ASCII comment
+    text, a tag after a skipped part). -/
 
-example : spacedB Classes.ascii W.cleanToks = true ∧
-    inlineB (lineLens16 W.cleanText) Classes.ascii W.cleanToks = true ∧
-    (tokenizeSrc Classes.ascii W.cleanToks).all (fun st =>
-      (st.2.ty == .comment && !(extractTags Classes.ascii st.2).isEmpty) || faithful W.cleanText st.2) = true ∧
-    (tokenize Classes.ascii W.cleanToks).length = 13 := by decide +kernel
+def hypsHold (text : Bytes) (toks : List Token) : Bool :=
+  extentsB text toks && measB Classes.ascii text toks &&
+  inlineB (lineLens16 text) Classes.ascii text toks &&
+  (tokenizeSrc Classes.ascii text toks).all (fun st =>
+    (st.2.ty == .comment && !(extractTags Classes.ascii text st.2).isEmpty) ||
+    (placed text st.2 && !devCrComment st.2))
 
-/-! ### The known deviations, each on the real lexer's output for its witness text -/
+example : hypsHold W.cleanText W.cleanToks = true ∧
+    (tokenize Classes.ascii W.cleanText W.cleanToks).length = 13 := by decide +kernel
 
-/-- `payee|note`: the operator token is placed on the cell after the bar — it does not cover
-    the bar and it overlaps the note. -/
-theorem pipe_position_counterexample :
-    (tokenizeSrc Classes.ascii W.pipeToks).any (fun st =>
-      devPipe st.2 && !coversTok W.pipeText st.2 (absOf st.1)) = true ∧
-    orderedDisjoint ((tokenize Classes.ascii W.pipeToks).map absOf) = false := by decide +kernel
+example : hypsHold W.codeText W.codeToks = true ∧ hypsHold W.quotedText W.quotedToks = true ∧
+    hypsHold W.trimText W.trimToks = true ∧ hypsHold W.nonbmpText W.nonbmpToks = true ∧
+    hypsHold W.tagbText W.tagbToks = true ∧ hypsHold W.tagsText W.tagsToks = true := by decide +kernel
 
-/-- `(123)`: the code token covers `(12`. -/
-theorem code_length_counterexample :
-    (tokenizeSrc Classes.ascii W.codeToks).any (fun st =>
-      devCode st.2 && !coversTok W.codeText st.2 (absOf st.1)) = true := by decide +kernel
+/-! ### The open deviation, on the real lexer's output for its witness text -/
 
-/-- `"AAPL 2"`: the commodity token covers `"AAPL `. -/
-theorem quoted_commodity_length_counterexample :
-    (tokenizeSrc Classes.ascii W.quotedToks).any (fun st =>
-      devQuoted st.2 && !coversTok W.quotedText st.2 (absOf st.1)) = true := by decide +kernel
-
-/-- A payee after a tab starts on the tab; on a CRLF line a zero-length token sits on the CR. -/
-theorem text_trimmed_position_counterexample :
-    (tokenizeSrc Classes.ascii W.trimToks).any (fun st =>
-      devTextTrim W.trimText st.2 && !coversTok W.trimText st.2 (absOf st.1)) = true ∧
-    (tokenizeSrc Classes.ascii W.trim2Toks).any (fun st =>
-      devTextTrim W.trim2Text st.2 && (absOf st.1).len == 0) = true := by decide +kernel
-
-/-- `; note` + CRLF: the comment token is one unit longer than its line. -/
+/-- `; note` + CRLF: the comment token is one unit longer than its line (its value ends with
+    the CR, `devCrComment`; the hypothesis `inlineB` is false). -/
 theorem crlf_comment_length_counterexample :
-    (tokenizeSrc Classes.ascii W.crlfToks).any (fun st =>
-      devCrComment st.2 && !inLine (lineLens16 W.crlfText) (absOf st.1)) = true := by decide +kernel
+    (tokenizeSrc Classes.ascii W.crlfText W.crlfToks).any (fun st =>
+      devCrComment st.2 && !inLine (lineLens16 W.crlfText) (absOf st.1)) = true ∧
+    inlineB (lineLens16 W.crlfText) Classes.ascii W.crlfText W.crlfToks = false := by decide +kernel
 
-/-- After `😀` the lexer's column is one less than the UTF-16 column. -/
-theorem nonbmp_column_counterexample :
-    (tokenizeSrc Classes.ascii W.nonbmpToks).any (fun st =>
+/-! ### The repaired deviations: what the PINNED tokenizer (HL/Model/SemTokPinned.lean) did on
+    the real lexer's output for each witness text, and what the repaired one does -/
+
+def allCover (text : Bytes) (toks : List Token) : Bool :=
+  (tokenizeSrc Classes.ascii text toks).all (fun st =>
+    inLine (lineLens16 text) (absOf st.1) &&
+    (if st.2.ty == .comment && (st.1.ty == tyTag || st.1.ty == tyTagValue)
+     then coversTag Classes.ascii text st.2 (absOf st.1) else coversTok text st.2 (absOf st.1))) &&
+  orderedDisjoint ((tokenize Classes.ascii text toks).map absOf)
+
+/-- `payee|note` as the pinned lexer reported it: the operator token was placed on the cell
+    after the bar — it did not cover the bar and it overlapped the note. -/
+theorem pinned_pipe_position_counterexample :
+    (Pinned.tokenizeSrc Classes.ascii W.pipePinnedToks).any (fun st =>
+      devPipe st.2 && !coversTok W.pipeText st.2 (absOf st.1)) = true ∧
+    orderedDisjoint ((Pinned.tokenize Classes.ascii W.pipePinnedToks).map absOf) = false ∧
+    allCover W.pipeText W.pipeToks = true := by decide +kernel
+
+/-- `(123)`: the pinned code token covered `(12`; the repaired one covers `(123)`. -/
+theorem pinned_code_length_counterexample :
+    (Pinned.tokenizeSrc Classes.ascii W.codeToks).any (fun st =>
+      devCode st.2 && !coversTok W.codeText st.2 (absOf st.1)) = true ∧
+    allCover W.codeText W.codeToks = true := by decide +kernel
+
+/-- `"AAPL 2"`: the pinned commodity token covered `"AAPL `; the repaired one covers the quotes. -/
+theorem pinned_quoted_commodity_length_counterexample :
+    (Pinned.tokenizeSrc Classes.ascii W.quotedToks).any (fun st =>
+      devQuoted st.2 && !coversTok W.quotedText st.2 (absOf st.1)) = true ∧
+    allCover W.quotedText W.quotedToks = true := by decide +kernel
+
+/-- A payee after a no-break space started on that space; on a CRLF line a zero-length token
+    sat on the CR.  Repaired: the payee token starts at its first letter, no empty token. -/
+theorem pinned_text_trimmed_position_counterexample :
+    (Pinned.tokenizeSrc Classes.ascii W.trimToks).any (fun st =>
+      devTextTrim W.trimText st.2 && !coversTok W.trimText st.2 (absOf st.1)) = true ∧
+    (Pinned.tokenizeSrc Classes.ascii W.trim2Toks).any (fun st =>
+      devTextTrim W.trim2Text st.2 && (absOf st.1).len == 0) = true ∧
+    allCover W.trimText W.trimToks = true ∧ allCover W.trim2Text W.trim2Toks = true := by decide +kernel
+
+/-- After `😀` the lexer's column is one less than the UTF-16 column; the repaired tokenizer
+    counts UTF-16 units itself. -/
+theorem pinned_nonbmp_column_counterexample :
+    (Pinned.tokenizeSrc Classes.ascii W.nonbmpToks).any (fun st =>
       devNonBmpBefore W.nonbmpText (lexemeRange W.nonbmpText st.2).1 &&
-      !coversTok W.nonbmpText st.2 (absOf st.1)) = true := by decide +kernel
+      !coversTok W.nonbmpText st.2 (absOf st.1)) = true ∧
+    allCover W.nonbmpText W.nonbmpToks = true := by decide +kernel
 
-/-- `; é, tag:value`: tag tokens are placed by byte offsets; both miss their text and the value
-    token leaves the line. -/
-theorem tag_byte_offsets_counterexample :
-    (tokenizeSrc Classes.ascii W.tagbToks).all (fun st =>
+/-- `; é, tag:value`: the pinned tag tokens were placed by byte offsets; both missed their text
+    and the value token left the line. -/
+theorem pinned_tag_byte_offsets_counterexample :
+    (Pinned.tokenizeSrc Classes.ascii W.tagbToks).all (fun st =>
       devTagBytes st.2 (st.1.col.toNat + st.1.len.toNat - st.2.pos.col) &&
       !coversTag Classes.ascii W.tagbText st.2 (absOf st.1)) = true ∧
-    (tokenize Classes.ascii W.tagbToks).any (fun s => !inLine (lineLens16 W.tagbText) (absOf s)) = true := by
-  decide +kernel
+    (Pinned.tokenize Classes.ascii W.tagbToks).any (fun s => !inLine (lineLens16 W.tagbText) (absOf s)) = true ∧
+    allCover W.tagbText W.tagbToks = true := by decide +kernel
 
-/-- `; p q ya:1, a:2`: the part `p q ya:1` is skipped, the tag `a:` is then found inside `ya:`. -/
-theorem tag_search_position_counterexample :
-    (tokenizeSrc Classes.ascii W.tagsToks).any (fun st =>
+/-- `; p q ya:1, a:2`: the part `p q ya:1` was skipped, the tag `a:` was then found inside `ya:`. -/
+theorem pinned_tag_search_position_counterexample :
+    (Pinned.tokenizeSrc Classes.ascii W.tagsToks).any (fun st =>
       devTagSkippedPart Classes.ascii st.2 &&
-      !coversTag Classes.ascii W.tagsText st.2 (absOf st.1)) = true := by decide +kernel
+      !coversTag Classes.ascii W.tagsText st.2 (absOf st.1)) = true ∧
+    allCover W.tagsText W.tagsToks = true := by decide +kernel
 
 end HL.Props.C17
